@@ -631,6 +631,54 @@ def exhaustive_case(rng, kind, T):
     return {"cfg": cfg, "ops": ops, "stream": "exhaustive"}
 
 
+# multiples of the tolerance by which an observation is displaced from the target: inside, ON the edge (a match), and outside the
+# band by a hair (2^-10 of the tolerance), by a fraction, by a few tolerances, by many — the band is ABSOLUTE: |h - h*| <= eps
+# whatever the magnitude of h*
+BAND_MULT = [0.0, 0.5, 1.0, 1.0, 1 + 2 ** -10, 1 + 2 ** -6, 1.125, 1.25, 1.5, 2.0, 3.0, 5.0, 17.0, 100.0, 1000.0]
+
+
+def band_cfg(rng, cfg):
+    """target of any magnitude (2^-4 .. 5*2^20, either sign, or 0) with a dyadic tolerance 2^-3 .. 2^-10 — everything exact in
+    float64, so whether an observation is an event is decided without rounding"""
+    cfg["bool_obs"] = False
+    cfg["target"] = rng.choice([1.0, -1.0]) * rng.choice([1.0, 1.0, 3.0, 5.0]) * 2.0 ** rng.choice([-4, 0, 3, 7, 10, 10, 12, 16, 20])
+    if rng.random() < 0.1:
+        cfg["target"] = 0.0
+    cfg["tol"] = 2.0 ** -rng.choice([3, 6, 8, 8, 10])
+    return cfg
+
+
+def band_obs(rng, cfg, P):
+    vals = []
+    for _ in range(P):
+        u = rng.random()
+        if u < 0.8:
+            vals.append(cfg["target"] + rng.choice([-1.0, 1.0]) * rng.choice(BAND_MULT) * cfg["tol"])
+        elif u < 0.9:
+            vals.append(rng.choice([0.0, -cfg["target"], cfg["target"] / 2, cfg["target"] * 2]))
+        else:
+            vals.append(rng.randint(-16, 16) / 8)
+    return vals
+
+
+def tolband_case(rng, kind):
+    """NearestTraceReducer / CumulativeTraceReducer with a tolerance, targets of every magnitude, observations placed at
+    multiples of the tolerance around the target (see BAND_MULT); every slot of the record is read back"""
+    cfg = band_cfg(rng, make_cfg(rng, kind, dur_steps=rng.choice([0, 2, 3, 4]), bool_obs=False))
+    shape = rng.choice([(4,), (6,), (2, 3), (8,)])
+    P = math.prod(shape)
+    dt, n = cfg["dt"], recsz(cfg["dt"], cfg["dur"], cfg["incl"])
+    ops = []
+    for _ in range(rng.randint(5, 10)):
+        ops += [["obs", rng.random() < 0.5, list(shape), band_obs(rng, cfg, P), None], ["peek"]]
+        if rng.random() < 0.3:
+            ops += view_ops(rng, n, dt, P)
+        if rng.random() < 0.1:
+            ops += [["clear", rng.random() < 0.5], ["peek"]]
+    ops += [["dump"], ["cfg"]]
+    return {"cfg": cfg, "ops": ops, "stream": "tolband"}
+
+
 def corpus_cases():
     d = Path(__file__).resolve().parent.parent.parent / "corpus" / "C07"
     out = []
@@ -789,15 +837,22 @@ def functional_stream(ctx, ex: Exploration, ncase: int, use_driver: bool):
              "exprate_trace_nearest", "exprate_trace_cumulative", "trace_nearest_scaled",
              "trace_cumulative_scaled", "trace_cumulative_value"]
     cases, lines, spans = [], [], []
-    for i in range(ncase):
-        fn = names[i % len(names)]
+    nband = max(12, ncase // 3)          # the six target / tolerance functions again, on the `tolband` inputs
+    for i in range(ncase + nband):
+        band = i >= ncase
+        fn = names[i % len(names)] if not band else names[(i - ncase) % 6]
         dt, tau = rng.choice(DTS), rng.choice([2.0, 4.0, 5.0, 10.0])
         A, sc = rng.choice([1.0, 0.5, -1.0, 2.0]), rng.choice([0.5, 1.0, -0.25])
         target, tol = rng.choice([1.0, 0.0, 0.5]), rng.choice([None, 0.125, 0.25])
         crit = [rng.choice(["gt", "ge"]), rng.choice([0.0, 0.5, 0.25])]
         T, P = rng.randint(1, 12), rng.randint(1, 4)
-        seq = [[rng.choice([target, target + (tol or 0.0), target - (tol or 0.0) - 0.125, rng.randint(-8, 8) / 8])
-                for _ in range(P)] for _ in range(T)]
+        if band:
+            bc = band_cfg(rng, {})
+            target, tol, P = bc["target"], bc["tol"], rng.randint(3, 6)
+            seq = [band_obs(rng, bc, P) for _ in range(T)]
+        else:
+            seq = [[rng.choice([target, target + (tol or 0.0), target - (tol or 0.0) - 0.125, rng.randint(-8, 8) / 8])
+                    for _ in range(P)] for _ in range(T)]
         decay = math.exp(-dt / tau)
         f = getattr(inferno, fn)
         if fn in ("trace_nearest", "trace_cumulative"):
@@ -824,7 +879,7 @@ def functional_stream(ctx, ex: Exploration, ncase: int, use_driver: bool):
                 got.append(tolist(x))
         mul = cfg.get("premul", 1.0)
         case = {"cfg": cfg, "ops": [op for row in seq for op in (["obs", False, [P], [v * mul for v in row], None], ["peek"])],
-                "stream": "functional:" + fn}
+                "stream": ("functional-band:" if band else "functional:") + fn}
         cases.append((case, got, fn, seq))
         ls = case_lines(case)
         spans.append((len(lines) + 1, len(lines) + len(ls)))
@@ -833,7 +888,7 @@ def functional_stream(ctx, ex: Exploration, ncase: int, use_driver: bool):
     for (case, got, fn, seq), (a, z) in zip(cases, spans):
         orc = run_oracle(case)
         ex.evaluations += len(got)
-        ex.count("functional", fn)
+        ex.count("functional" if case["stream"].startswith("functional:") else "functional-band", fn)
         ex.nontriv(("functional", fn, json.dumps(case["cfg"], sort_keys=True), json.dumps(seq)))
         peeks_o = [o for op, o in zip(case["ops"], orc) if op[0] == "peek"]
         peeks_m = None
@@ -870,6 +925,9 @@ def build_cases(ctx, thorough):
                 cases.append(random_case(rng, kind, rng.randint(4, length), mode))
         for _ in range(max(3, per // 3) * (3 if kind == "EV" else 1)):
             cases.append(regrow_case(rng, kind))
+    for kind in ("NT", "CT"):
+        for _ in range(10 if not thorough else 80):
+            cases.append(tolband_case(rng, kind))
     return cases, ncorpus
 
 
@@ -886,10 +944,13 @@ def _explore(ctx, use_driver: bool) -> Exploration:
                "element per history, T=5 quick / 8 thorough) + seeded random operation sequences in four streams — plain (observe / peek / "
                "dump / view), clear (interleaved clear(keepshape=True/False), shape change after deinitialisation), config (dt / duration "
                "assigned before the first observation, after a clear and mid-run), regrow (observe, clear(keepshape), grow the record, observe, "
-               "read every slot — all fills incl. EventReducer inf / nan; then grow while observing) — over dt in {1/4,1/2,1,2}, duration 0..6 steps (incl. non-integer), "
+               "read every slot — all fills incl. EventReducer inf / nan; then grow while observing), and for the two target / tolerance reducers "
+               "tolband (targets of every magnitude 2^-4 .. 5*2^20 of either sign, dyadic tolerances 2^-3 .. 2^-10, observations displaced from the "
+               "target by multiples of the tolerance: inside, on the edge, outside by 2^-10 of a tolerance up to 1000 tolerances — the band "
+               "|h - h*| <= eps is absolute) — over dt in {1/4,1/2,1,2}, duration 0..6 steps (incl. non-integer), "
                "inclusive on/off, in-place on/off, boolean and dyadic real observations (on / at the edge of / outside the tolerance band), "
                "scalar and per-element tensor view times on the grid, within tolerance, off the grid and out of range; plus the functional "
-               "API inferno.trace_* / exp_trace_* / exprate_trace_* iterated directly. Every answer is compared with the Lean code-shaped "
+               "API inferno.trace_* / exp_trace_* / exprate_trace_* iterated directly (also on the tolband inputs). Every answer is compared with the Lean code-shaped "
                "machine, the Lean specification machine and independently computed closed-form sums. Non-trivial = the real reducer "
                "returned at least one tensor; distinct = distinct (configuration, operation list).")
     ex.samples = [{"cfg": c["cfg"], "ops": jsonable(c["ops"][:8])} for c in (cases[ncorpus], cases[ncorpus + 1], cases[-1])]
